@@ -50,6 +50,8 @@ var patCatalogue = []struct {
 	{"$x, $y", true}, {"$y, $x", true}, {"$a, $b, $c", false}, {"1, $x", true},
 	{"func $f() {}; func $g() {}", false}, {"var $a $t; var $b $t", false},
 	{"import $_", false}, {"$x...", false}, {"...$t", false}, {";", false},
+	// identifiers and string literals that also occur INSIDE import declarations (import name, import path)
+	{`"fmt"`, false}, {`"strings"`, false}, {"str", false}, {`"unsafe"`, false}, {"fmt", false},
 }
 
 type patInfo struct {
@@ -332,6 +334,11 @@ type tRule struct {
 //  3: the reverse order (what the patterns of a group mean must not depend on the groups around it)
 //  4: list rules whose filter runs list sub-patterns while the node's matches are still being enumerated
 //  5: Contains() sub-patterns with a package-qualified callee in groups with and without imports
+//  6: identifier / string-literal rules whose matches lie inside import declarations (import names, import paths; named, dot and
+//     blank imports, several import declarations) and outside of them, in a rule set WITHOUT any declaration-rooted rule
+//  7: the same rules behind declaration-rooted ones (`import $_`, `var $_ = $_`): what the other rules of the set are must not
+//     decide which nodes a rule is offered
+//  8, 9: one lone literal rule / one lone identifier rule
 var targetedSets = []struct {
 	Theme string
 	Rules []tRule
@@ -346,7 +353,63 @@ var targetedSets = []struct {
 		{"$f($*args)", "contains args $_ + $_", "c", nil}}},
 	{"pkgs", []tRule{{"$x; $y", "contains y util.F()", "a", []string{"example.com/wk/b/util"}}, {"$f($*args)", "contains args rand.Intn($*_)", "b", []string{"example.com/wk/rand"}},
 		{"$x; $y", "contains y util.F()", "c", nil}, {"{ $*body }", "contains body rand.Int($*_); util.F()", "d", []string{"crypto/rand", "example.com/wk/a/util"}}}},
+	{"imports", importLeafRules(nil)},
+	{"imports", importLeafRules([]tRule{{"import $_", "", "imp", nil}, {"var $_ = $_", "", "var", nil}})},
+	{"imports", []tRule{{`"fmt"`, "", "a", nil}}},
+	{"imports", []tRule{{"str", "live", "a", nil}}},
 }
+
+func importLeafRules(first []tRule) []tRule {
+	rs := append([]tRule{}, first...)
+	for i, p := range []string{`"fmt"`, "str", "u", `"unsafe"`, `"math"`, `"embed"`, "fmt2", "e2", `"errors"`, `"strings"`, "imps", "$x.$y"} {
+		filt := ""
+		if i%4 == 3 {
+			filt = "live" // a filter that accepts everything here: import declarations are never dead
+		}
+		rs = append(rs, tRule{p, filt, fmt.Sprintf("l%d", i), nil})
+	}
+	return rs
+}
+
+// importsSink: every form of import declaration (single, grouped, empty; named, dot and blank imports; one path twice), and the
+// same identifiers / literals outside of them.
+const importsSink = `// Package imps doc.
+package imps
+
+import "errors"
+
+import (
+	"fmt" // line comment
+	str "strings"
+	. "math"
+	_ "embed"
+	u "unsafe"
+	fmt2 "fmt"
+)
+
+import ()
+
+import e2 "errors"
+
+var fmtName = "fmt"
+
+var mathName, embedName = "math", "embed"
+
+type box struct{ str, u string }
+
+func use(str2 string) (fmt3 string, err error) {
+	u := str.ToUpper(str2)
+	_ = fmt.Sprint(u, "strings", Pi, Sqrt(2))
+	_ = fmt2.Sprintf("unsafe")
+	b := box{str: "errors", u: "u"}
+	if b.str == "fmt" {
+		return b.u, errors.New("embed")
+	}
+	return fmt3, e2.New("math")
+}
+
+var size = u.Sizeof(0)
+`
 
 // genRuleSet renders an abstract rule description both to DSL source files and to the oracle's rule list (load order).
 // theme: "" (any pattern), "pkgs" (groups with and without Matcher.Import, package-qualified patterns), "contains"
@@ -699,6 +762,12 @@ func runRulesMode(enc *json.Encoder, rng *rand.Rand, nsets, size int, tmp string
 		return
 	}
 	targets = append(targets, pkgTargets...)
+	// a target with every form of import declaration (the sets of theme "imports" run on it; so do some random ones)
+	mk("imps/target.go", importsSink)
+	impTarget := targets[len(targets)-1]
+	if impTarget.name != "imps/target.go" {
+		return
+	}
 	bundles := map[string][]bundleFile{}
 	for _, pkg := range bundlePkgs {
 		bfs, err := readBundle(pkg)
@@ -739,7 +808,9 @@ func runRulesMode(enc *json.Encoder, rng *rand.Rand, nsets, size int, tmp string
 			fp.loads[li].Err = msg
 		}
 		tg := targets[si%len(targets)]
-		if strings.Contains(theme, "pkgs") {
+		if theme == "imports" {
+			tg = impTarget
+		} else if strings.Contains(theme, "pkgs") {
 			tg = pkgTargets[rng.Intn(len(pkgTargets))]
 		} else if theme == "contains" && nbase > 1 {
 			tg = targets[1+(si+rng.Intn(2))%(nbase-1)] // generated nestings: statement lists with loops and blocks inside
